@@ -223,3 +223,85 @@ def inline_record(rec, get_rec, transparent, stack=(), depth=0):
     new["locals"] = locs
     new["inlined"] = sorted(set(rec.get("inlined", []) + inlined))
     return new, inlined
+
+
+# ------------------------------------------------------------------------------------------------ unknown closures
+def _map_upvar_operand(o, ops):
+    """closure operand rooted in a captured variable -> the creating function's operand/place; else an opaque constant"""
+    p = o.get("m") or o.get("c")
+    if p is None:
+        return o
+    if p[0] == 1 and len(p) >= 2:
+        rest = p[1:]
+        deref_self = rest and rest[0] == "*"
+        if deref_self:
+            rest = rest[1:]
+        if rest and isinstance(rest[0], dict) and "up" in rest[0]:
+            k = rest[0]["f"]
+            if k < len(ops):
+                cap = ops[k]
+                cp = cap.get("m") or cap.get("c")
+                if cp is not None:
+                    return {"c": list(cp) + list(rest[1:])}
+                if not rest[1:]:
+                    return cap
+    return {"k": "<closure-local>", "ty": "?"}
+
+
+def project_closure_calls(rec, get_rec, unknown, depth=0):
+    """For every closure created in `rec` that is unknown to the rule tables: its calls are projected onto the block
+    that creates it, as a chain of pseudo call blocks placed right after the creating statement (creation = call, as in
+    the call graph).  Returns (new_rec, [closure ids projected])."""
+    sites = []
+    for bi, b in enumerate(rec["blocks"]):
+        for si, st in enumerate(b["st"]):
+            if st["s"] == "assign" and st["r"]["rv"] == "agg" and isinstance(st["r"]["kind"], dict) and unknown(st["r"]["kind"].get("closure")):
+                sites.append((bi, si, st["r"]["kind"]["closure"], st["r"]["ops"], st.get("l")))
+    if not sites:
+        return rec, []
+    new = dict(rec)
+    blocks = [dict(b) for b in rec["blocks"]]
+    locs = list(rec["locals"])
+    done = []
+    # process from the last statement backwards so that statement indices stay valid
+    for bi, si, cid, ops, line in sorted(sites, key=lambda x: (x[0], -x[1])):
+        crec = get_rec(cid)
+        if crec is None:
+            continue
+        calls = []
+
+        def collect(cr, cops, d):
+            for cb in cr["blocks"]:
+                t = cb["term"]
+                if t["t"] == "call" and "def" in t["f"]:
+                    calls.append((t, cops, cr["id"]))
+                for st in cb["st"]:
+                    if d < 2 and st["s"] == "assign" and st["r"]["rv"] == "agg" and isinstance(st["r"]["kind"], dict) \
+                            and unknown(st["r"]["kind"].get("closure")):
+                        sub = get_rec(st["r"]["kind"]["closure"])
+                        if sub is not None:
+                            collect(sub, None, d + 1)
+                            done.append(sub["id"])
+        collect(crec, ops, 0)
+        done.append(cid)
+        if not calls:
+            continue
+        blk = blocks[bi]
+        head = blk["st"][: si + 1]
+        tail = blk["st"][si + 1:]
+        term = blk["term"]
+        first = len(blocks)
+        n = len(calls)
+        for k, (t, cops, owner) in enumerate(calls):
+            dl = len(locs)
+            locs.append({"ty": "?", "n": None})
+            args = [(_map_upvar_operand(a, cops) if cops is not None else ({"k": "<closure-local>", "ty": "?"} if ("m" in a or "c" in a) else a)) for a in t["args"]]
+            pt = {"t": "call", "f": dict(t["f"]), "args": args, "aty": t.get("aty", []), "dest": [dl], "to": first + k + 1, "unwind": None,
+                  "l": t.get("l", line), "via_closure": owner}
+            blocks.append({"st": [], "term": pt})
+        blocks.append({"st": tail, "term": term})
+        blocks[bi] = {"st": head, "term": {"t": "goto", "to": first, "l": line}}
+    new["blocks"] = blocks
+    new["locals"] = locs
+    new["projected_closures"] = sorted(set(rec.get("projected_closures", []) + done))
+    return new, done
